@@ -108,10 +108,20 @@ def _single_defs(fi):
     for sub in walk_shallow(fi.node):
         if isinstance(sub, ast.Assign) and len(sub.targets) == 1 and isinstance(sub.targets[0], ast.Name):
             defs.setdefault(sub.targets[0].id, []).append(sub.value)
-        elif isinstance(sub, (ast.AugAssign, ast.For, ast.With)):
-            t = sub.target if not isinstance(sub, ast.With) else None
-            for nm in (target_names(t) if t is not None else []):
-                defs.setdefault(nm, []).append(None)
+        elif isinstance(sub, ast.Assign):
+            for t in sub.targets:
+                for nm in target_names(t):
+                    defs.setdefault(nm, []).append(None)
+        elif isinstance(sub, (ast.AugAssign, ast.For, ast.With, ast.AnnAssign, ast.comprehension)):
+            if isinstance(sub, ast.With):
+                ts = [it.optional_vars for it in sub.items if it.optional_vars is not None]
+            else:
+                ts = [sub.target]
+            for t in ts:
+                for nm in target_names(t):
+                    defs.setdefault(nm, []).append(None)
+    for nm in fi.params():
+        defs.setdefault(nm, []).append(None)
     return {k: v[0] for k, v in defs.items() if len(v) == 1 and v[0] is not None}
 
 
@@ -371,16 +381,38 @@ def _consumer_loops(p):
         loop, counter, linevar, direct, start = loops[0]
         lp = fe.params()[1]
         out.append((fe, loop, "reference-engine", counter, linevar, direct, start, {"%s[1]" % lp}, {"%s[0]" % lp}))
-    # ~Other loop in LASFile.read
+    # ~Other (free text) loop: in LASFile.read or in a private helper of the las module it calls
     fr = p.func(READ)
-    sp = _section_tuple_names(fr)
-    for sub in walk_shallow(fr.node):
-        if isinstance(sub, ast.For) and isinstance(sub.iter, ast.Name) and isinstance(sub.target, ast.Name):
-            if sub.iter.id in ("file_obj",) or "file" in sub.iter.id:
-                if any(isinstance(c, ast.Call) and isinstance(c.func, ast.Attribute) and c.func.attr == "append" for c in ast.walk(sub)):
-                    if any(isinstance(c, ast.Compare) for c in ast.walk(sub)):
-                        out.append((fr, sub, "other", None, sub.target.id, True, None, {sp["last"]}, {sp["first"]}))
-                        break
+    cands = [fr] + [f for q, f in sorted(p.functions.items()) if f.module.name == "las" and f.cls is None and f.parent is None]
+    found_other = False
+    for cf in cands:
+        if found_other:
+            break
+        for sub in walk_shallow(cf.node):
+            if not (isinstance(sub, ast.For) and isinstance(sub.iter, ast.Name) and isinstance(sub.target, ast.Name)):
+                continue
+            if not ("file" in sub.iter.id or sub.iter.id in cf.params()):
+                continue
+            if not any(isinstance(c, ast.Call) and isinstance(c.func, ast.Attribute) and c.func.attr == "append" for c in ast.walk(sub)):
+                continue
+            if not _is_title_test(sub, sub.target.id):
+                continue
+            # counter = name advanced by += 1 in the loop; first = its initial value; last = what it is compared with
+            cvs = [a.target.id for a in ast.walk(sub) if isinstance(a, ast.AugAssign) and isinstance(a.target, ast.Name)]
+            if not cvs:
+                continue
+            cv = cvs[0]
+            firsts, ends = set(), set()
+            for s2 in walk_shallow(cf.node):
+                if isinstance(s2, ast.Assign) and any(isinstance(t, ast.Name) and t.id == cv for t in s2.targets) and not in_block(s2, sub.body):
+                    firsts.add(ast.unparse(s2.value))
+            for c in ast.walk(sub):
+                if isinstance(c, ast.Compare) and len(c.ops) == 1 and isinstance(c.ops[0], ast.Eq) and isinstance(c.left, ast.Name) and c.left.id == cv:
+                    ends.add(ast.unparse(c.comparators[0]))
+            if firsts and ends:
+                out.append((cf, sub, "other", None, sub.target.id, True, None, ends, firsts))
+                found_other = True
+                break
     return out
 
 
@@ -582,30 +614,74 @@ def _foldable_title_tests(fi, names):
     return out
 
 
-def _fold_title(t, var, title, extra=None):
+def _fold_title(t, var, title, extra=None, defs=None):
+    """fold test t with the title variable bound to `title`; locals with a single definition (derived from the title or
+    constant tables) are inlined through `defs`"""
+    depth = [0]
+
     def env(name):
         if name == var:
             return title
         if extra and name in extra:
             return extra[name]
+        if defs and name in defs:
+            depth[0] += 1
+            if depth[0] > 30:
+                raise NotConst("cyclic %s" % name)
+            try:
+                return fold(defs[name], env)
+            finally:
+                depth[0] -= 1
         raise NotConst("name %s" % name)
     return fold(t, env)
 
 
-def _letter_atoms(t, var):
+def _mentions(v, tv, derived, depth=0):
+    names = {n.id for n in ast.walk(v) if isinstance(n, ast.Name)}
+    if tv in names:
+        return True
+    if depth > 10:
+        return False
+    return any(n in derived and _mentions(derived[n], tv, derived, depth + 1) for n in names)
+
+
+def _title_derived(fi, tv):
+    """single-definition locals whose value depends only on the title variable / constants (transitively)"""
+    defs = _single_defs(fi)
+    good = {}
+    changed = True
+    while changed:
+        changed = False
+        for k, v in defs.items():
+            if k in good or k == tv:
+                continue
+            free = {n.id for n in ast.walk(v) if isinstance(n, ast.Name)} - {"re", "len", "str", "any", "all", "dict", "tuple", "set"}
+            pure_const = not free and isinstance(v, (ast.Constant, ast.Tuple, ast.List, ast.Set, ast.Dict))
+            if (free and free <= ({tv} | set(good))) or pure_const:
+                good[k] = v
+                changed = True
+    return good
+
+
+def _letter_atoms(t, var, defs=None):
     """sub-expressions of test t that classify by a documented letter: compares/startswith/in against 'X'/'~X'"""
     atoms = []
+    defs = defs or {}
     for c in ast.walk(t):
         if isinstance(c, ast.Compare) and len(c.ops) == 1:
-            consts = [x for x in [c.left] + list(c.comparators) if isinstance(x, (ast.Constant, ast.Tuple, ast.List, ast.Set))]
-            free = {n.id for n in ast.walk(c) if isinstance(n, ast.Name)}
-            if var in free and consts and free <= {var}:
+            consts = [x for x in [c.left] + list(c.comparators) if isinstance(x, (ast.Constant, ast.Tuple, ast.List, ast.Set, ast.Dict))
+                      or (isinstance(x, ast.Name) and x.id in defs and x.id != var and not ({n.id for n in ast.walk(defs[x.id]) if isinstance(n, ast.Name)}))]
+            free = {n.id for n in ast.walk(c) if isinstance(n, ast.Name)} - {x.id for x in consts if isinstance(x, ast.Name)}
+            titleish = {var} | {k for k, v in defs.items() if var in {n.id for n in ast.walk(v) if isinstance(n, ast.Name)}}
+            if free & titleish and consts and free <= titleish:
                 vals = []
                 for k in consts:
                     try:
-                        v = fold(k)
+                        v = fold(defs[k.id]) if isinstance(k, ast.Name) else fold(k)
                     except NotConst:
                         continue
+                    if isinstance(v, dict):
+                        v = list(v)
                     vals += list(v) if isinstance(v, (tuple, list, set)) else [v]
                 if any(isinstance(v, str) and v.lstrip("~").upper() in list(LETTERS) and len(v.lstrip("~")) == 1 for v in vals):
                     atoms.append(c)
@@ -616,7 +692,8 @@ def _letter_atoms(t, var):
             except NotConst:
                 continue
             vals = list(v) if isinstance(v, tuple) else [v]
-            if var in free and free <= {var} and any(isinstance(x, str) and x.lstrip("~").upper() in list(LETTERS) and len(x.lstrip("~")) == 1 for x in vals):
+            titleish = {var} | {k for k, v_ in defs.items() if var in {n.id for n in ast.walk(v_) if isinstance(n, ast.Name)}}
+            if free & titleish and free <= titleish and any(isinstance(x, str) and x.lstrip("~").upper() in list(LETTERS) and len(x.lstrip("~")) == 1 for x in vals):
                 atoms.append(c)
     return atoms
 
@@ -637,7 +714,7 @@ def rule_case(ctx):
             if not isinstance(sub, (ast.If, ast.IfExp)):
                 continue
             for var in sorted(names):
-                for atom in _letter_atoms(sub.test, var):
+                for atom in _letter_atoms(sub.test, var, _single_defs(fi)):
                     key = (atom.lineno, atom.col_offset)
                     if key in seen:
                         continue
@@ -722,6 +799,7 @@ def rule_steer(ctx):
     cd = ControlDependence(cfg)
     stores = _steer_stores(fr)
     found = set()
+    derived = _title_derived(fr, tv)
     for st, mn, var in stores:
         found.add(mn)
         site = "%s#steer(%s)" % (READ, mn)
@@ -731,7 +809,8 @@ def rule_steer(ctx):
                 if cfg.nodes[tn].kind == "test":
                     t = cfg.nodes[tn].ast
                     free = {n.id for n in ast.walk(t) if isinstance(n, ast.Name)}
-                    if tv in free and free <= {tv}:
+                    tder = {k for k, v in derived.items() if _mentions(v, tv, derived)}
+                    if free & ({tv} | tder) and free <= ({tv} | set(derived)):
                         tests.append((t, lab.startswith("true")))
         enabled = set()
         for L in LETTERS + "TX":
@@ -739,7 +818,7 @@ def rule_steer(ctx):
                 ok = True
                 for t, pol in tests:
                     try:
-                        v = bool(_fold_title(t, tv, title))
+                        v = bool(_fold_title(t, tv, title, defs=derived))
                     except NotConst as e:
                         raise AnalysisError("SEC.STEER: cannot fold `%s`: %s" % (unparse(t), e))
                     if v != pol:
@@ -764,6 +843,8 @@ def rule_steer(ctx):
 def rule_title_pred(ctx):
     p = ctx.p
     targets = [p.func("reader.find_sections_in_file"), p.func("reader.parse_header_items_section"), p.func(READ)]
+    targets += [f for q, f in sorted(p.functions.items()) if f.module.name == "las" and f.cls is None and f.parent is None
+                and not isinstance(f.node, ast.Lambda)]
     n = 0
     for fi in targets:
         cfg = build_cfg(p, fi)
@@ -893,7 +974,8 @@ def rule_route(ctx):
         tests = [(cfg.nodes[tn].ast, lab.startswith("true")) for (tn, lab) in cd.transitive(nid) if cfg.nodes[tn].kind == "test"]
         routes.append((t.slice, tests, a))
     problems = []
-    ver_names = [n for n in ("provisional_version",) ]
+    derived_r = _title_derived(fr, tv)
+    derived_p = _title_derived(sp_init, "title")
     for L in LETTERS[:4] + "TXO":
         for title in ("~" + L, "~" + L.lower(), "~" + L + "ection info", "~" + L.lower() + "ection info"):
             if L == "O":
@@ -905,7 +987,7 @@ def rule_route(ctx):
                     for t, pol in tests:
                         free = {n.id for n in ast.walk(t) if isinstance(n, ast.Name)}
                         try:
-                            v = bool(_fold_title(t, tvar, title, extra))
+                            v = bool(_fold_title(t, tvar, title, extra, defs=(derived_r if tvar == tv else derived_p)))
                         except NotConst:
                             # tests not about the title (section_type == ..., version == 3.0 ...): assume the header-items, non-LAS3 case
                             v = _assume(t, pol)
@@ -928,8 +1010,8 @@ def rule_route(ctx):
                 problems.append("title %r: %d routing stores and %d parser kinds are selected" % (title, len(rk or []), len(pk or [])))
                 continue
             try:
-                key = _fold_title(rk[0], tv, title)
-                kind = _fold_title(pk[0], "title", title)
+                key = _fold_title(rk[0], tv, title, defs=derived_r)
+                kind = _fold_title(pk[0], "title", title, defs=derived_p)
             except NotConst as e:
                 continue
             std = {"Curves", "Parameter", "Well", "Version"}
@@ -967,6 +1049,11 @@ def rule_reseek(ctx):
     cfg = build_cfg(p, fr)
     consumers_q = {"reader.parse_header_items_section", "reader.inspect_data_section",
                    "reader.read_data_section_iterative_normal_engine"}
+    for q, f in p.functions.items():
+        if f.module.name == "las" and f.cls is None and f.parent is None and not isinstance(f.node, ast.Lambda) and f.params():
+            fp = f.params()[0]
+            if any(isinstance(x, ast.For) and isinstance(x.iter, ast.Name) and x.iter.id == fp for x in walk_shallow(f.node)):
+                consumers_q.add(q)
     cons, seeks, other_cons = [], [], []
     for node in cfg.nodes:
         if node.ast is None or node.kind not in ("stmt", "test", "for-iter"):
